@@ -17,6 +17,7 @@ import time
 import z3
 
 from . import front
+from . import proc
 from .contracts import FN, LEMMA
 from .exec import Engine, FnExec, State
 from .solve import solve_all
@@ -44,8 +45,7 @@ def native_run(jobs, spec_modules, timeout=600):
     env = dict(os.environ)
     env["PYTHONPATH"] = VERIF
     env.setdefault("PYVC_REPO", front.REPO)
-    p = subprocess.run([VENV_PY, "-m", "pyvc.native"], input=req, capture_output=True, text=True,
-                       cwd=VERIF, env=env, timeout=timeout)
+    p = proc.run([VENV_PY, "-m", "pyvc.native"], input=req, cwd=VERIF, env=env, timeout=timeout)
     if p.returncode != 0:
         raise RuntimeError(f"native worker failed: {p.stderr[-800:]}")
     return json.loads(p.stdout)
@@ -92,12 +92,12 @@ def standin_bounded(prop, name=None, extra_args=()):
     """bounded stand-in: the executable relation of the property evaluated on the real code over the
     enumerated corpus of /verif/standin (stated bound: --n cases per class, seeded)."""
     def run(pc):
-        n = 300 if pc.tier == "quick" else 1200      # 300 >= every single-field boundary recipe of the largest class (276)
+        n = 330 if pc.tier == "quick" else 1200      # 330 >= every single-field boundary recipe of the largest class (292)
         env = dict(os.environ)
         env["PYTHONPATH"] = VERIF
         env.setdefault("PYVC_REPO", front.REPO)
         cmd = [VENV_PY, "-m", "standin.run", prop, "--n", str(n), "--seed", str(pc.seed)] + list(extra_args)
-        p = subprocess.run(cmd, capture_output=True, text=True, cwd=VERIF, env=env, timeout=3000)
+        p = proc.run(cmd, cwd=VERIF, env=env, timeout=3000)
         if p.returncode != 0:
             raise RuntimeError(f"stand-in {prop} crashed: {p.stderr[-600:]}")
         r = json.loads(p.stdout)
@@ -118,7 +118,7 @@ def external_bounded(name, module, quick_args, thorough_args, bound_text):
         env["PYTHONPATH"] = VERIF
         env.setdefault("PYVC_REPO", front.REPO)
         args = list(quick_args if pc.tier == "quick" else thorough_args) + ["--seed", str(pc.seed)]
-        p = subprocess.run([VENV_PY, "-m", module] + args, capture_output=True, text=True, cwd=VERIF, env=env, timeout=3300)
+        p = proc.run([VENV_PY, "-m", module] + args, cwd=VERIF, env=env, timeout=3300)
         if p.returncode != 0:
             raise RuntimeError(f"stand-in {module} crashed: {p.stderr[-600:]}")
         r = json.loads(p.stdout)
@@ -211,7 +211,7 @@ class PropertyCheck:
 
     def run(self):
         fns, lems = self.selected()
-        timeout = 90 if self.tier == "quick" else 240
+        timeout = 150 if self.tier == "quick" else 240      # idle maximum is ~30 s: headroom for a loaded machine
         execs = []
         for L in lems:
             execs.append(("lemma", L, self.eng.verify_lemma(L)))
